@@ -239,7 +239,11 @@ class _ManifoldDynamicsService(_DynamicsServiceBase):
                 self.orbit.initial_state,
                 self.period,
                 steps=steps,
-                forward=self.forward,
+                # The monodromy and the STM history that transports its
+                # eigenvectors along the orbit are always those of the forward
+                # flow; only the manifold trajectories themselves are integrated
+                # backward for the stable branch.
+                forward=1,
             )
         
         return self.get_or_create(cache_key, _factory)
